@@ -52,7 +52,8 @@ def name_rule(name, ver, kind):
 def prop_rule(pname, ver):
     import re
     if ver == "2.0":
-        return "grey"
+        # 2.0 names are not checked by the library (grey), but a name that satisfies the stricter 2.1 rule is legal in 2.0 as well
+        return "legal" if re.match(r"^[a-z][a-z0-9_]{2,249}$", pname) else "grey"
     if re.search(r"[^a-z0-9_]", pname) or not re.match(r"^[a-z]", pname) or not (3 <= len(pname) <= 250):
         return "illegal"
     return "legal"
@@ -189,6 +190,11 @@ class Machine(object):
         # accepted
         if dup:
             self.fail("duplicate-accepted", "%s succeeded although the name is taken in %s/%s" % (desc, ver, cat))
+        elif kind in ("object", "observable"):
+            # objects and observables share one dispatch in parse(): a name taken in the other of the two categories (same version) is taken
+            oc = "observables" if kind == "object" else "objects"
+            if name in self.base[ver][oc] or (ver, oc, name) in self.model:
+                self.fail("name-taken-in-other-category-accepted", "%s succeeded although %r is registered in %s/%s" % (desc, name, ver, oc))
         if nr == "illegal":
             feature = ("double-hyphen" if "--" in name else "length" if not 3 <= len(name) <= 250 else "charset" if any(ch not in "abcdefghijklmnopqrstuvwxyz0123456789-" for ch in name) else "first-char")
             self.fail("illegal-type-name-accepted:%s:%s" % (feature, ver), "%s succeeded" % desc)
